@@ -159,7 +159,13 @@ func runWatched(cmd *exec.Cmd, marker string) (out []byte, killed string, err er
 					lastMark, lastChange = m, time.Now()
 				}
 			}
-			if killed == "" && time.Since(lastChange) > time.Duration(caseTO)*time.Second {
+			// (before the first marker the worker is still starting up - reading a case file of many megabytes on a busy
+			// machine - and gets ten times as long)
+			limit := time.Duration(caseTO) * time.Second
+			if lastMark == "" {
+				limit *= 10
+			}
+			if killed == "" && time.Since(lastChange) > limit {
 				killed = fmt.Sprintf("no progress for %d s (hang)", caseTO)
 				cmd.Process.Kill()
 			}
